@@ -24,10 +24,14 @@ Inductive case :=
 | CScript (s : list N) (sum : Z) (obs : bool)        (* Script.Validate(sum) == nil *)
 | CVerify (a r s k : Z) (obs : bool)                 (* Key.Verify; k the challenge of the verified transcript *)
 | CBatch (es : list (Z * Z * Z * Z)) (obs : bool)    (* crypto.BatchVerify on entries (a, r, s, k) *)
-| CCancel (es : list (Z * Z * Z * Z)) (zs : list Z) (obs : bool).
+| CCancel (es : list (Z * Z * Z * Z)) (zs : list Z) (obs : bool)
   (* linear-cancellation family: every entry individually invalid, the errors chosen so
      that the batch sum cancels for the coefficient pattern zs (all equal, period 2,
      small guessed weights); crypto.BatchVerify must still refuse *)
+| CAggV (ref : bool) (obs : bool)
+  (* CAggV: crypto.AggregateVerify called directly; [ref] is the verdict of the harness' independent
+     transcription of the aggregate scheme (the instance of the abstract predicate [aggv] together
+     with the structural checks), [obs] what the implementation answered *).
 
 Definition mk_utxo (u : Z * list (N * N) * list N * N) : utxo :=
   let '(t, ks, sc, lk) := u in
@@ -60,4 +64,5 @@ Definition check (c : case) : bool :=
       && Nat.eqb (length zs) (length es)
       && batch_check ed_l zs es                       (* the family does cancel for its pattern *)
       && negb (batch_check ed_l (ones (length es) 1) es)  (* and not for pairwise different coefficients *)
+  | CAggV ref obs => Bool.eqb ref obs
   end.
